@@ -71,7 +71,14 @@ Inductive dlabel :=
 | DRelease (d : N)                          (* release() *)
 | DClose (d : N)                            (* Close() *)
 | BDo (b : N) (a : argv) (fail : bool)      (* mux.blocking: Acquire, Do, [Close on a non-Redis error,] Store *)
-| SDo (a : argv).                           (* shared pipelined traffic *)
+| SDo (a : argv)                            (* shared pipelined traffic *)
+| DTry (d : N) (a : argv).                  (* one attempt of a retrying Do / DoMulti that ends in a retryable failure which leaves the
+                                               wire healthy (-LOADING): check() — EVERY attempt re-checks the mark — then the command is
+                                               sent; no result yet: the call goes into its back-off (RetryDelay), during which anything
+                                               may happen (a release from another goroutine or from the RetryDelay callback, another
+                                               session acquiring the wire …), and comes back with another DTry or with its final
+                                               attempt, a DDo.  An attempt of a marked client ends the call with
+                                               ErrDedicatedClientRecycled: that is DDo; DTry is not enabled for it. *)
 
 (** ---- helpers ---- *)
 Fixpoint find_wire (id : N) (l : list wire) : option wire :=
@@ -227,6 +234,11 @@ Definition dstep (s : dstate) (l : dlabel) : option dstate :=
     end
   | SDo a =>
     Some (mkD (d_wires s) (d_idle s) (d_next s) (d_clients s) (d_log s) (d_res s) (d_shared s ++ [a]) (d_v7 s))
+  | DTry d a =>
+    match find_dc d (d_clients s) with
+    | Some c => if dc_mark c then None else Some (user_cmd s (dc_wire c) (HDed d) a (fun x => x))
+    | None => None
+    end
   end.
 
 Definition dinit (first_pool_conn : N) (v7 : bool) : dstate := mkD [] [] first_pool_conn [] [] [] [] v7.
@@ -297,6 +309,16 @@ Definition k_0_2e01 : bytes := bs "0.01"%string.
 Definition k_5 : bytes := bs "5"%string.
 Definition k_v : bytes := bs "v"%string.
 Definition k_ : bytes := bs ""%string.
+Definition k_LOADING : bytes := bs "LOADING"%string.
+Definition k_m_3arel : bytes := bs "m:rel"%string.
+Definition k_d1_3ar : bytes := bs "d1:r"%string.
+Definition k_d1_3aq : bytes := bs "d1:q"%string.
+Definition k_d2_3ar : bytes := bs "d2:r"%string.
+Definition k_d2_3aq : bytes := bs "d2:q"%string.
+Definition k_d3_3ar : bytes := bs "d3:r"%string.
+Definition k_d3_3aq : bytes := bs "d3:q"%string.
+Definition k_d4_3ar : bytes := bs "d4:r"%string.
+Definition k_d4_3aq : bytes := bs "d4:q"%string.
 Definition k_d1_3ak : bytes := bs "d1:k"%string.
 Definition k_d1_3aw : bytes := bs "d1:w"%string.
 Definition k_d1_3ac : bytes := bs "d1:c"%string.
